@@ -121,6 +121,17 @@ func TestC02_named_function_reference(t *testing.T) {
 			tb = operandType(t, "tb", a.Y)
 		}
 		intOperandsOff = false
+		// the multi-step operations compare their operands in the type of the first one: a value outside
+		// the range of the other operand's integer type would be converted out of range there
+		// (implementation defined), so that operand is held in a float type instead
+		if op.Arity == 2 {
+			if lo, hi := ta.IntRange(); ta.IsInt() && !(a.Y >= float64(lo) && a.Y <= float64(hi)) {
+				ta = gen.TFloat64
+			}
+			if lo, hi := tb.IntRange(); tb.IsInt() && !(a.X >= float64(lo) && a.X <= float64(hi)) {
+				tb = gen.TFloat64
+			}
+		}
 		// values as held by the operand types
 		held := a
 		held.X = ta.Conv(a.X)
